@@ -182,7 +182,7 @@ func (f *Frame) execCall(cur *blockCur, in ssa.Instruction, cc *ssa.CallCommon, 
 	// builtins
 	if b, ok := cc.Value.(*ssa.Builtin); ok {
 		c.stats.callsBuiltin++
-		if f.callerFrame == nil && (b.Name() == "append" || b.Name() == "copy" || b.Name() == "delete") {
+		if f.callerFrame == nil && (b.Name() == "append" || b.Name() == "copy" || b.Name() == "delete" || b.Name() == "close") {
 			f.callAsserts(cur, in, cc, nil, args)
 			f.countCall(cur, cc, nil)
 			if c.callPre == nil {
